@@ -352,7 +352,15 @@ def run(ctx: Ctx) -> None:
     for g_ in _family5(ctx):
         gcfg = cfg_of(g_)
         for st in g_.own_nodes():
-            if not (isinstance(st, ast.If) and any(isinstance(x, ast.Call) and unparse(x.func) == "isinstance" and len(x.args) == 2 and "tzinfo" in unparse(x.args[1], 300) for x in ast.walk(st.test))):
+            def _types_text(t_: ast.AST) -> str:
+                # the tuple of types may be a module-level constant of the hashing module
+                if isinstance(t_, ast.Name) and not prog.is_local(g_, t_.id):
+                    for a_ in g_.module.assigns.get(t_.id, []):
+                        v_ = getattr(a_, "value", None)
+                        if v_ is not None:
+                            return unparse(v_, 400)
+                return unparse(t_, 300)
+            if not (isinstance(st, ast.If) and any(isinstance(x, ast.Call) and unparse(x.func) == "isinstance" and len(x.args) == 2 and "tzinfo" in _types_text(x.args[1]) for x in ast.walk(st.test))):
                 continue
             reprs = [x for b_ in st.body for x in ast.walk(b_) if isinstance(x, ast.Call) and isinstance(x.func, ast.Name) and x.func.id == "repr"]
             for r_ in reprs:
@@ -435,6 +443,11 @@ def run(ctx: Ctx) -> None:
     rep.rule("C03.R14", "as C01.R4: each structural option (accept_list / accept_dict) governs its own types only: the signature of a function that reads a dict variable does not "
                         "depend on the option of the lists")
     tracked_type_table(ctx, "C03.R14")
+    from .c05 import dict_order_insensitive
+    rep.rule("C03.R16", "the signature of a dictionary argument is the same in every process and for every hash seed: equal plain dictionaries are hashed in a canonical order of their "
+                        "items, not in insertion order (which, for a dictionary built from a set, follows the hash seed)")
+    n16 = dict_order_insensitive(ctx, "C03.R16")
+    rep.floor("C03.R16", n16, 1)
     from .c05 import pinned_combinations
     rep.rule("C03.R15", "the order-insensitive combiner renders the combined number as pinned (abstract evaluation of dds_hash_commut on a table of pair lists, among them lists whose "
                         "exclusive-or starts with zero digits)")
